@@ -275,7 +275,9 @@ def _window_pairs(rep, col, label, where):
     n = 0
     bad = {}
     for (rule, rel, sym, slot, msg, line) in col.fails:
-        bad[slot.split(':')[-1]] = (rel, sym, msg, line)
+        parts = slot.split(':')
+        opn = parts[1] if len(parts) > 1 else parts[-1]
+        bad[opn] = (rel, sym, msg, line)
     done = {s[3].split(':')[-1] for s in col.oks}
     for e in col.errors:
         rep.error(e)
